@@ -86,12 +86,24 @@ func clsValue(t string) *string {
 	return &s
 }
 
+// foreign controller names: an unrelated one and names NEAR ours (a sub-path of ours - the documented name of a
+// sibling instance started with --controller-class -, ours with a suffix, a proper prefix of ours, another case):
+// all of them belong to ANOTHER controller; the harness cycles through them (seed C08g accepts sub-paths of ours)
+var foreignCtrlN int
+
+func foreignCtrl() string {
+	names := []string{"k8s.io/ingress-nginx", xnsworld.ControllerName + "/internal", xnsworld.ControllerName + "-2",
+		xnsworld.ControllerName[:len(xnsworld.ControllerName)-1], strings.ToUpper(xnsworld.ControllerName), xnsworld.ControllerName + "/"}
+	foreignCtrlN++
+	return names[foreignCtrlN%len(names)]
+}
+
 func classObjs() []client.Object {
 	return []client.Object{
 		&networking.IngressClass{ObjectMeta: metav1.ObjectMeta{Name: "cls-ours", Generation: 1},
 			Spec: networking.IngressClassSpec{Controller: xnsworld.ControllerName}},
 		&networking.IngressClass{ObjectMeta: metav1.ObjectMeta{Name: "cls-foreign", Generation: 1},
-			Spec: networking.IngressClassSpec{Controller: "k8s.io/ingress-nginx"}},
+			Spec: networking.IngressClassSpec{Controller: foreignCtrl()}},
 	}
 }
 
@@ -489,7 +501,7 @@ func (cw *cworld) op(op string) (flag string) {
 		mk := func(k string, gen int64) *networking.IngressClass {
 			ctrl := xnsworld.ControllerName
 			if k == "f" {
-				ctrl = "k8s.io/ingress-nginx"
+				ctrl = foreignCtrl()
 			}
 			return &networking.IngressClass{ObjectMeta: metav1.ObjectMeta{Name: "cls", Generation: gen},
 				Spec: networking.IngressClassSpec{Controller: ctrl}}
